@@ -15,6 +15,8 @@ import (
 // uniform wrapper over the six adder variants; float adders carry exactly representable values
 type anyAdder interface {
 	Add(x int64)
+	Inc()
+	Dec()
 	Sum() int64
 	Store(v int64)
 	Reset()
@@ -24,6 +26,8 @@ type anyAdder interface {
 type longW struct{ a adder.LongAdder }
 
 func (w longW) Add(x int64)        { w.a.Add(x) }
+func (w longW) Inc()               { w.a.Inc() }
+func (w longW) Dec()               { w.a.Dec() }
 func (w longW) Sum() int64         { return w.a.Sum() }
 func (w longW) Store(v int64)      { w.a.Store(v) }
 func (w longW) Reset()             { w.a.Reset() }
@@ -32,36 +36,78 @@ func (w longW) SumAndReset() int64 { return w.a.SumAndReset() }
 // float adders: the harness values are float64 bit patterns carried in an int64
 type floatW struct{ a adder.Float64Adder }
 
-func fb(x int64) float64           { return math.Float64frombits(uint64(x)) }
-func bf(f float64) int64           { return int64(math.Float64bits(f)) }
-func (w floatW) Add(x int64)       { w.a.Add(fb(x)) }
-func (w floatW) Sum() int64        { return bf(w.a.Sum()) }
-func (w floatW) Store(v int64)     { w.a.Store(fb(v)) }
-func (w floatW) Reset()            { w.a.Reset() }
+func fb(x int64) float64            { return math.Float64frombits(uint64(x)) }
+func bf(f float64) int64            { return int64(math.Float64bits(f)) }
+func (w floatW) Add(x int64)        { w.a.Add(fb(x)) }
+func (w floatW) Inc()               { w.a.Inc() }
+func (w floatW) Dec()               { w.a.Dec() }
+func (w floatW) Sum() int64         { return bf(w.a.Sum()) }
+func (w floatW) Store(v int64)      { w.a.Store(fb(v)) }
+func (w floatW) Reset()             { w.a.Reset() }
 func (w floatW) SumAndReset() int64 { return bf(w.a.SumAndReset()) }
 
-func newAdder(impl string) (anyAdder, bool) {
-	switch impl {
-	case "jdk":
-		return longW{adder.NewJDKAdder()}, false
-	case "randomcell":
-		return longW{adder.NewRandomCellAdder()}, false
-	case "atomic":
-		return longW{adder.NewAtomicAdder()}, false
-	case "mutex":
-		return longW{adder.NewMutexAdder()}, false
-	case "jdkf64":
-		return floatW{adder.NewJDKF64Adder()}, true
-	case "atomicf64":
-		return floatW{adder.NewAtomicF64Adder()}, true
+// the six variants: Type constant of adder/pkg.go, value domain, documented dynamic type
+// (pkg.go: "JDKAdderType is type for JDK-based LongAdder", "RandomCellAdderType is type for RandomCellAdder", "AtomicAdderType is type for
+// atomic-based adder", "MutexAdderType is type for MutexAdder", "JDKF64AdderType is type for JDK-based DoubleAdder", "AtomicF64AdderType is
+// type for atomic-based float64 adder"; "DefaultAdder returns jdk long adder", "DefaultFloat64Adder returns jdk f64 adder")
+var adderVariants = map[string]struct {
+	t     adder.Type
+	tname string
+	float bool
+	dyn   string
+}{
+	"jdk":        {adder.JDKAdderType, "JDKAdderType", false, "*adder.JDKAdder"},
+	"randomcell": {adder.RandomCellAdderType, "RandomCellAdderType", false, "*adder.RandomCellAdder"},
+	"atomic":     {adder.AtomicAdderType, "AtomicAdderType", false, "*adder.AtomicAdder"},
+	"mutex":      {adder.MutexAdderType, "MutexAdderType", false, "*adder.MutexAdder"},
+	"jdkf64":     {adder.JDKF64AdderType, "JDKF64AdderType", true, "*adder.JDKF64Adder"},
+	"atomicf64":  {adder.AtomicF64AdderType, "AtomicF64AdderType", true, "*adder.AtomicF64Adder"},
+}
+
+// newAdder constructs the variant `impl` directly (via "direct"), through the factory NewLongAdder / NewFloat64Adder (via "factory") or
+// through DefaultAdder / DefaultFloat64Adder (via "default", JDK variants only). It returns the wrapped adder, the call that made it, and
+// the dynamic type of what came back. maxCells is a package variable of the instrumented copy, so the override applies to all of them.
+func newAdder(impl, via string) (a anyAdder, float bool, call, dyn string) {
+	v, ok := adderVariants[impl]
+	if !ok {
+		panic("impl")
 	}
-	panic("impl")
+	if v.float {
+		var f adder.Float64Adder
+		switch {
+		case via == "default" && impl == "jdkf64":
+			f, call = adder.DefaultFloat64Adder(), "adder.DefaultFloat64Adder()"
+		case via != "direct":
+			f, call = adder.NewFloat64Adder(v.t), "adder.NewFloat64Adder(adder."+v.tname+")"
+		case impl == "jdkf64":
+			f, call = adder.NewJDKF64Adder(), "adder.NewJDKF64Adder()"
+		default:
+			f, call = adder.NewAtomicF64Adder(), "adder.NewAtomicF64Adder()"
+		}
+		return floatW{f}, true, call, fmt.Sprintf("%T", f)
+	}
+	var l adder.LongAdder
+	switch {
+	case via == "default" && impl == "jdk":
+		l, call = adder.DefaultAdder(), "adder.DefaultAdder()"
+	case via != "direct":
+		l, call = adder.NewLongAdder(v.t), "adder.NewLongAdder(adder."+v.tname+")"
+	case impl == "jdk":
+		l, call = adder.NewJDKAdder(), "adder.NewJDKAdder()"
+	case impl == "randomcell":
+		l, call = adder.NewRandomCellAdder(), "adder.NewRandomCellAdder()"
+	case impl == "atomic":
+		l, call = adder.NewAtomicAdder(), "adder.NewAtomicAdder()"
+	default:
+		l, call = adder.NewMutexAdder(), "adder.NewMutexAdder()"
+	}
+	return longW{l}, false, call, fmt.Sprintf("%T", l)
 }
 
 type aop struct {
-	kind string // add sum store reset sar
-	x    int64
-	id   int // update id (add)
+	kind string // add inc dec sum store reset sar
+	x    int64  // inc / dec: +1 / -1 (float: the bit patterns of +1.0 / -1.0), i.e. the update the call is documented to make
+	id   int    // update id (add, inc, dec)
 }
 
 type athread struct {
@@ -75,6 +121,8 @@ func (t athread) String() string {
 		switch o.kind {
 		case "add", "store":
 			s = append(s, fmt.Sprintf("%s(%d)", o.kind, o.x))
+		case "inc", "dec":
+			s = append(s, o.kind) // the real call is Inc() / Dec()
 		default:
 			s = append(s, o.kind)
 		}
@@ -86,6 +134,7 @@ type arun struct {
 	a     anyAdder
 	float bool
 	h     history
+	panic string // first panic of a logical thread (recovered): a violation, never a silent crash
 }
 
 func (r *arun) val(v int64) string {
@@ -97,15 +146,31 @@ func (r *arun) val(v int64) string {
 
 func (r *arun) body(tid int, th athread) func() {
 	return func() {
+		cur := "start"
+		defer func() {
+			if p := recover(); p != nil && r.panic == "" {
+				r.panic = fmt.Sprintf("panic in thread %d during %s: %v", tid, cur, p)
+			}
+		}()
 		for _, op := range th.ops {
 			vsched.Point()
+			cur = op.kind
 			switch op.kind {
-			case "add":
+			case "add", "inc", "dec":
+				// towards the model and the monitors Inc / Dec ARE Add(+1) / Add(-1): same request line, same history record;
+				// only the call made on the real adder differs
 				clock++
 				o := &opRec{tid: tid, kind: "add", arg: op.id, inv: clock}
 				r.h.ops = append(r.h.ops, o)
 				vsched.Logf("inv %d add %s\n", tid, r.val(op.x))
-				r.a.Add(op.x)
+				switch op.kind {
+				case "inc":
+					r.a.Inc()
+				case "dec":
+					r.a.Dec()
+				default:
+					r.a.Add(op.x)
+				}
 				r.h.end(o, "unit")
 			case "sum":
 				o := r.h.begin(tid, "sum", -1)
@@ -138,6 +203,18 @@ var extremeInts = []int64{0, 1, -1, math.MaxInt64, math.MinInt64, math.MaxInt64 
 // program: phases 1 (concurrent), 2 (solo maintenance), 3 (concurrent), 4 (final solo sum)
 func genAdderProgram(rng *rand.Rand, family string, float bool, mutex bool) (ths []athread, xs []int64) {
 	bit := 0
+	one, minusOne := int64(1), int64(-1)
+	if float {
+		one, minusOne = bf(1), bf(-1)
+	}
+	pow2 := family == "pow2" || family == "contend" || family == "grow"
+	// "unit" runs: a third of the updates are Inc / Dec calls whatever the family's value stream says. In the power-of-two families of
+	// the int64 adders this switches off the decoding of concurrent Sums (C09) for the phase, so it is rare there; everywhere an update
+	// whose value is +1 / -1 anyway (2^0 in the power-of-two streams, the extreme-value table) is made through Inc / Dec half of the time.
+	units := rng.Intn(3) == 0
+	if pow2 && !float {
+		units = rng.Intn(8) == 0
+	}
 	mkAdd := func() aop {
 		var x int64
 		switch {
@@ -147,7 +224,7 @@ func genAdderProgram(rng *rand.Rand, family string, float bool, mutex bool) (ths
 			if bit >= 41 {
 				x = bf(-float64(int64(1) << uint(bit%41)))
 			}
-		case family == "pow2" || family == "contend" || family == "grow":
+		case pow2:
 			x = int64(1) << uint(bit%62)
 		default:
 			if rng.Intn(2) == 0 {
@@ -156,10 +233,20 @@ func genAdderProgram(rng *rand.Rand, family string, float bool, mutex bool) (ths
 				x = int64(rng.Uint64())
 			}
 		}
+		kind := "add"
+		if units && rng.Intn(3) == 0 {
+			x = []int64{one, minusOne}[rng.Intn(2)]
+		}
+		if (x == one || x == minusOne) && (units || rng.Intn(2) == 0) {
+			kind = "inc"
+			if x == minusOne {
+				kind = "dec"
+			}
+		}
 		id := bit
 		bit++
 		xs = append(xs, x)
-		return aop{kind: "add", x: x, id: id}
+		return aop{kind: kind, x: x, id: id}
 	}
 	conc := func(phase int) {
 		nth := 2 + rng.Intn(3)
@@ -211,7 +298,7 @@ func genAdderProgram(rng *rand.Rand, family string, float bool, mutex bool) (ths
 		ths = append(ths, athread{ops: ops, phase: phase})
 	}
 	conc(1)
-	if (family != "pow2" && family != "contend" && family != "grow") || rng.Intn(2) == 0 {
+	if !pow2 || rng.Intn(2) == 0 {
 		maint(2)
 		if rng.Intn(2) == 0 {
 			conc(3)
@@ -260,7 +347,15 @@ func runAdder(fs *flag.FlagSet, args []string) {
 			}
 			return probeEdges[rng.Intn(len(probeEdges))]
 		}
-		a, float := newAdder(*impl)
+		// a quarter of the runs make the adder through the factory of adder/pkg.go, an eighth (JDK variants) through Default*Adder
+		via := "direct"
+		switch v := rng.Intn(8); {
+		case v < 2 || (v == 2 && *impl != "jdk" && *impl != "jdkf64"):
+			via = "factory"
+		case v == 2:
+			via = "default"
+		}
+		a, float, call, dyn := newAdder(*impl, via)
 		r := &arun{a: a, float: float}
 		ths, xs := genAdderProgram(rng, family, float, *impl == "mutex")
 		alg := "int"
@@ -287,13 +382,21 @@ func runAdder(fs *flag.FlagSet, args []string) {
 			s.phase[i] = th.phase
 			desc = append(desc, fmt.Sprintf("t%d=%s", i, th))
 		}
-		runf(run, "family=%s impl=%s maxcells=%d %s", family, *impl, mc, strings.Join(desc, " "))
+		runf(run, "family=%s impl=%s ctor=%s maxcells=%d %s", family, *impl, call, mc, strings.Join(desc, " "))
+		if want := adderVariants[*impl].dyn; dyn != want {
+			// no property tag: whichever check runs this variant is not looking at the documented implementation
+			monf(run, "FAIL %s returned %s; adder/pkg.go documents %s for this constructor", call, dyn, want)
+			return
+		}
 		layers := map[string]bool{"a": true, "r": true, "m": true}
 		res := vsched.Run(out, layers, bodies, 200000, s.pick)
 		fmt.Fprintf(out, "end\n")
 		msg := ""
 		if res.Budget || res.Deadlock {
 			msg = fmt.Sprintf("C02 run did not terminate (budget=%v deadlock=%v)", res.Budget, res.Deadlock)
+		}
+		if r.panic != "" {
+			msg = r.panic // untagged: reported by every check that runs this program
 		}
 		if msg == "" {
 			msg = monitorAdder(r, ths, xs, *impl == "mutex")
@@ -338,6 +441,7 @@ func monitorAdder(r *arun, ths []athread, xs []int64, mutex bool) string {
 		}
 	}
 	xOf := func(o *opRec) int64 { return xs[o.arg] }
+	soloMaint, concMaint := false, false // Store / Reset / SumAndReset seen in a solo phase / concurrently with updates (mutex adder)
 	for _, p := range order {
 		ops := phases[p]
 		nthreads := map[int]bool{}
@@ -347,6 +451,14 @@ func monitorAdder(r *arun, ths []athread, xs []int64, mutex bool) string {
 			if o.kind == "sar" || o.kind == "reset" || o.kind == "store" {
 				hasMaint = true
 			}
+		}
+		if p == 9 {
+			break // the final quiescent Sum is judged below
+		}
+		if hasMaint && len(nthreads) == 1 {
+			soloMaint = true
+		} else if hasMaint {
+			concMaint = true
 		}
 		if len(nthreads) == 1 {
 			// solo phase: behaves exactly like a single number (C16)
@@ -455,12 +567,16 @@ func monitorAdder(r *arun, ths []athread, xs []int64, mutex bool) string {
 		}
 		ref = total
 	}
-	// final quiescent Sum (last op) must equal the reference (C02)
+	// final quiescent Sum (last op) must equal the reference. Which property a wrong total breaks depends on what the run did before:
+	// only updates and Sums: conservation (C02); maintenance in solo phases: agreement with a plain number (C16); maintenance concurrent
+	// with updates (mutex adder only): atomicity of the whole API (C19)
 	last := r.h.ops[len(r.h.ops)-1]
-	if last.kind == "sum" && !unknown && last.res != r.val(ref) {
+	if last.kind == "sum" && last.ret != 0 && !unknown && last.res != r.val(ref) {
 		tag := "C02"
-		if mutex {
+		if concMaint {
 			tag = "C19"
+		} else if soloMaint {
+			tag = "C16"
 		}
 		return fmt.Sprintf("%s after all updates returned Sum=%s but the exact total is %s", tag, last.res, r.val(ref))
 	}
